@@ -83,4 +83,16 @@ def rawTie (d : RawDump) (symbolCount : Nat) : Option (Nat × Nat × Nat × Nat)
         let b := vals.getD y 0
         if a == b then none else some (s, y, a, b)
 
+/-- `ts_language_alias_sequence` returns row `production_id` of `ts_alias_sequences` (stride
+`max_alias_sequence_length`) for every production id but 0, and `ts_parser__reduce` / the tree cursor
+index it with every child position: a reduce action with a non-zero production id must not have more
+children than the row is long, or the runtime reads the NEXT production's aliases (or past the table).
+Returns the first offending (state, symbol, child count). -/
+def aliasRowOverrun (tbl : Table) : Option (Nat × Nat × Nat) :=
+  (List.range tbl.acts.size).findSome? fun s =>
+    (tbl.acts.getD s []).findSome? fun e =>
+      e.2.findSome? fun a => match a with
+        | .reduce _ n _ pid => if pid != 0 && n > tbl.maxAliasSeqLen then some (s, e.1, n) else none
+        | _ => none
+
 end TsVerif.C03
